@@ -75,7 +75,10 @@ class Bidding:
         for p in illegal:
             for c in p.conds():
                 for n in ast.walk(c.test):
-                    if isinstance(n, ast.Subscript) and attr_key(n.value):
+                    # the availability vector is the attribute indexed by the call itself (bid.idx / bid.value - 1)
+                    if isinstance(n, ast.Subscript) and attr_key(n.value) and any(
+                            isinstance(x, ast.Attribute) and isinstance(x.value, ast.Name) and x.value.id == self.bidp and x.attr in ('idx', 'value')
+                            for x in ast.walk(n.slice)):
                         masks.add(attr_key(n.value))
         masks -= {r.active}
         hist_like = set()
